@@ -199,7 +199,7 @@ func TestVerifC04(t *testing.T) {
 	rec := kit.Start(t, "C04", "leak")
 	defer rec.Finish()
 	env := rec.Env
-	n := env.Pick(6, 64)
+	n := env.Pick(6, 48)
 	for i := 0; i < n; i++ {
 		if !env.Mine(i) {
 			continue
